@@ -564,10 +564,13 @@ class _WaveReadProxy:
 
 
 class _FileReadProxy:
-    def __init__(self, real, label):
+    def __init__(self, real, label, raw=False):
         self._real = real
         self._label = label
+        self._raw = raw
+        self._frag = 0
         self.served_bytes = 0
+        self.short_reads = 0
         READERS.append(self)
 
     def read(self, n=-1):
@@ -577,6 +580,13 @@ class _FileReadProxy:
             st = FILE_STALL.get("plan")
             if st is not None:
                 st.maybe_stall(s)
+        if self._raw and n is not None and n > 1:
+            pat = (3, 1, 7, 2, 5, 150, 1, 64)
+            self._frag += 1
+            k = max(1, min(n, pat[self._frag % len(pat)]))
+            if k < n:
+                self.short_reads += 1
+            n = k
         d = _real(self._real.read, n)
         self.served_bytes += len(d)
         if s is not None:
@@ -597,9 +607,18 @@ READERS = []
 FILE_STALL = {"plan": None}
 
 
+PROXY_FILES = {"on": False}
+
+
 def sim_open(file, mode="r", *args, **kwargs):
     real = builtins.open(file, mode, *args, **kwargs)
-    if _sim() is not None and mode == "rb" and isinstance(file, str):
+    if (_sim() is not None or PROXY_FILES["on"]) and mode == "rb" \
+            and isinstance(file, str):
+        import io as _io
+        if isinstance(real, _io.RawIOBase):
+            # unbuffered: a raw read returns whatever is available, which on
+            # a FIFO / character device is a fragment (fault `short_read`)
+            return _FileReadProxy(real, _os.path.basename(file), raw=True)
         return _FileReadProxy(real, _os.path.basename(file))
     return real
 
@@ -614,7 +633,7 @@ def _make_wave_shim():
 
     def open_(f, mode=None):
         real = _wave.open(f, mode)
-        if _sim() is not None:
+        if _sim() is not None or PROXY_FILES["on"]:
             label = _os.path.basename(f) if isinstance(f, str) else "fileobj"
             if mode in ("wb", "w"):
                 return _WaveWriteProxy(real, label)
@@ -780,5 +799,6 @@ def reset_captures(scratch_dir=None):
     del SYSTEM_CALLS[:]
     del READERS[:]
     FILE_STALL["plan"] = None
+    PROXY_FILES["on"] = False
     SCRATCH["dir"] = scratch_dir
     SCRATCH["n"] = 0
